@@ -161,11 +161,15 @@ def main(argv=None):
 
     # pinned reproducers of open findings (run in-process via a worker helper)
     still_failing = {}
-    if open_f:
+    has_pins = any(f["property"] == pid and f.get("reproducer") is not None for f in kf["findings"])
+    if open_f or has_pins:
         pin = subprocess.run([PY, "-m", "vf.worker", "--pinned", pid], env=env, cwd=HERE,
-                             capture_output=True, timeout=600)
+                             capture_output=True, timeout=900)
         try:
-            still_failing = json.loads(pin.stdout.decode().strip().split("\n")[-1])
+            pres = json.loads(pin.stdout.decode().strip().split("\n")[-1])
+            still_failing = pres["open"]
+            for reg in pres["regressions"]:
+                unlisted.append(reg)
         except Exception:
             errs.append(("pinned", pin.returncode, pin.stderr.decode(errors="replace")[-2000:]))
     for f in open_f:
@@ -213,6 +217,7 @@ def main(argv=None):
         "tallies": {k: dict(c.most_common(80)) for k, c in tallies.items()},
         "known_findings_absorbed": dict(absorbed),
         "known_findings_pinned_still_failing": {k: bool(v) for k, v in still_failing.items()},
+        "fixed_findings_replayed": sum(1 for f in kf["findings"] if f["property"] == pid and f["status"] == "fixed" and f.get("reproducer") is not None),
         "inconclusive_cases": ninc,
         "inconclusive_samples": [i.get("detail") for i in inconclusive[:5]],
         "unlisted_violation_keys": dict(collections.Counter(v["key"] for v in unlisted)),
